@@ -58,6 +58,11 @@ func IMMSites() []Site {
 		{Tag: "promoted compound wpt.F+=", Stmt: "wpt.F += 1", Subj: SubjT, Codes: i2},
 		{Tag: "promoted index wt.Xs[0]", Stmt: "wt.Xs[0] = 1", Subj: SubjT, Codes: i4},
 		{Tag: "promoted mut wt.M", Stmt: "wt.M = 1", Subj: SubjTMut, Codes: i1},
+		{Tag: "promoted two levels wo.F (outer level embedded by pointer)", Stmt: "wo.F = 1", Subj: SubjT, Codes: i1, Core: true},
+		{Tag: "promoted two levels wo.Xs[0], wo.F++", Stmt: "wo.Xs[0] = 1", Subj: SubjT, Codes: i4},
+		{Tag: "promoted two levels mut wo.M++", Stmt: "wo.M++", Subj: SubjTMut, Codes: i3},
+		{Tag: "promoted through local alias of *WT", Stmt: "{ type LWP = *{WT}; var lw LWP = &wt; lw.F = 1 }", Subj: SubjT, Codes: i1, Core: true},
+		{Tag: "promoted through local alias of WT", Stmt: "{ type LW = {WT}; var lw *LW = &wt; lw.F++ }", Subj: SubjT, Codes: i3},
 		{Tag: "twin promoted wtw.F", Stmt: "wtw.F = 1; wtw.Xs[0] = 1; wtw.M++", Subj: SubjTwin},
 		// the generic annotated type GT[V] (instantiated as GT[int])
 		{Tag: "generic assign gx.F", Stmt: "gx.F = 1", Subj: SubjT2, Codes: i1, Core: true},
